@@ -369,6 +369,47 @@ def alignment_induction(prog: Program, chk: Check):
     chk.extra_coverage.update({"alignment_sequences_interpreted": nrun, "alignment_interpreter_steps": steps, "exhaustive": True,
                                "alignment_abstraction": "offset mod 8 (leading char[r]) x {native a in 1,2,4,8 with len None/1/2/3; struct a x size a,3a with len None/2}"})
 
+    # ---- D what check_alignment reads as a field's alignment ---------------------------------------------------------------------------
+    # The interpretation above takes `field.alignment` as given.  Field and TypeAlias delegate it to the type they stand for: a native
+    # type is aligned to its size, anything else (struct, message, alias) reports its own alignment.  `size` of a struct is not its
+    # alignment ({int32, int32}: 8 vs 4), so a delegate answering with a size over-aligns fields declared through it.
+    Dg = chk.rule("C11-D", "Field.alignment / TypeAlias.alignment answer with the alignment of the type they stand for (size only for a native type)", 2,
+                  "an alias answering with its size rejects (auto_pad off) or pads (auto_pad on) a layout that needs no padding")
+    pm_ = prog.module(PAR)
+    native = pm_.classes.get("NativeType")
+    nat_al = native.methods.get("alignment") if native is not None else None
+    nat_ok = None
+    if nat_al is not None:
+        rets_ = [r for r in walk_local(nat_al.node) if isinstance(r, ast.Return)]
+        nat_ok = bool(rets_) and all(r.value is not None and norm(r.value) == "self.size" for r in rets_)
+        Dg.decide(nat_ok, fkey(nat_al, "native-alignment"), where(nat_al), "a native type is aligned to its size", "NativeType.alignment is not its size")
+    ndel = 0
+    for cname in ("Field", "TypeAlias"):
+        ci_ = pm_.classes.get(cname)
+        fa = ci_.methods.get("alignment") if ci_ is not None else None
+        if fa is None:
+            raise AnalysisError(f"anchor vanished: {cname}.alignment")
+        g_ = C.build(fa.node)
+        gs_ = flow.guard_states(g_)
+        rets_ = [n for n in g_.nodes if n.kind == "stmt" and isinstance(n.ast, ast.Return)]
+        if not rets_:
+            raise AnalysisError(f"anchor vanished: {cname}.alignment returns nothing")
+        for n in rets_:
+            ndel += 1
+            v = norm(n.ast.value) if n.ast.value is not None else "None"
+            if v == "self.type_obj.alignment":
+                # reached for a native type only if NativeType answers with its size
+                reach_native = guards.any_path_implies(gs_.at(n), guards.parse("not isinstance(self.type_obj, NativeType)"))
+                okd = (not reach_native) or bool(nat_ok)
+                why_ = "native type objects reach `.alignment` but NativeType does not define it as its size"
+            elif v == "self.type_obj.size":
+                okd = not guards.any_path_implies(gs_.at(n), guards.parse("isinstance(self.type_obj, NativeType)"))
+                why_ = "the size of the type object is returned for a type that is not native"
+            else:
+                okd = False
+                why_ = f"returns `{v}`"
+            Dg.decide(okd, fkey(fa, n.ast), where(fa, n.ast), f"{cname}.alignment -> {v}", f"{cname}.alignment: {why_} (a struct's size is not its alignment)")
+
     # ---- T the size assertion compares with fixed-width types ---------------------------------------------------------------------------
     # check_alignment ends with `assert s.size == get_ctype_size(s)`.  The mirror must use fixed-width ctypes types: c_long /
     # c_ulong are 8 bytes on LP64 platforms while RTMA's long is 4, so a definition that needs no padding at all would be refused.
